@@ -73,6 +73,7 @@ func runAPCase(t *testing.T, m *Model, rng *RNG, c apCase, replay bool) (goRes s
 			mintErr = err
 			return
 		}
+		plain := lastMintedPlain
 		s, stoks := settingsFor(c)
 		verify := func() string {
 			var ok bool
@@ -128,7 +129,14 @@ func runAPCase(t *testing.T, m *Model, rng *RNG, c apCase, replay bool) (goRes s
 			}
 			goRes = verify() // the same request presented again
 		}
-		op = fmt.Sprintf("ap.verify %d %s %s %s - %s", now.UnixNano()/1000, stoks, B(replay), X(b), ktToks)
+		ob := b
+		if c.clearAppended && c.replayAs == nil {
+			// what is appended in the clear must change nothing: the independent acceptor judges the request without
+			// it (Go's decoder takes the extra element, a strict DER decoder refuses the whole ticket: either way the
+			// verdict on what the key opens is the one that counts)
+			ob = plain
+		}
+		op = fmt.Sprintf("ap.verify %d %s %s %s - %s", now.UnixNano()/1000, stoks, B(replay), X(ob), ktToks)
 	})
 	return
 }
